@@ -5,7 +5,7 @@ import json, os, sys, time
 
 import vlib
 
-GROWING = {'pb', 'pbm', 'rsz', 'rszv', 'rsv', 'stf', 'app', 'ins', 'insm'}
+GROWING = {'pb', 'pbm', 'rsz', 'rszv', 'rsv', 'stf', 'app', 'appc', 'appm', 'ins', 'insm'}
 
 
 def opk(d):
